@@ -3,7 +3,8 @@ import itertools, os
 import vlib
 from vlib import Stream, hexs
 from checks import seqideal
-from checks.seqcommon import SeqCheck, pack
+import hashlib
+from checks.seqcommon import SeqCheck, pack, ts_variant
 
 DOUBLE, LINEAR, EXACT = 2, 4, 8
 
@@ -11,6 +12,17 @@ DOUBLE, LINEAR, EXACT = 2, 4, 8
 def elem(os_, k):
     """distinct element number k of size os_ (contains NUL bytes for some k)"""
     return bytes((k * 37 + j * 11) % 256 if (k + j) % 7 else 0 for j in range(os_ - 1)) + bytes([k % 256])
+
+
+def bigelem(os_, k):
+    """element number k of size os_ whose bytes have no period: a block of it swapped, shifted or left
+    behind at ANY offset shows (sha256 in counter mode)"""
+    out = b""
+    c = 0
+    while len(out) < os_:
+        out += hashlib.sha256(b"%d/%d/%d" % (os_, k, c)).digest()
+        c += 1
+    return out[:os_]
 
 
 def build(os_, n):
@@ -52,9 +64,11 @@ class TheCheck(SeqCheck):
         out += [(2, 0, 1), (2, DOUBLE | LINEAR, 1), (2, LINEAR | EXACT, 2), (5, DOUBLE | EXACT, 0)]
         return out
 
-    def gen_index_exhaustive(self, nmax):
+    def gen_index_exhaustive(self, nmax, small=False):
         hs = []
         for os_, opt, cap in self.configs():
+            if small and (os_ not in (1, 3) or cap not in (0, 2)):
+                continue
             new = "new %d %d %d" % (cap, os_, opt)
             x, y = hexs(elem(os_, 200)), hexs(elem(os_, 201))
             for n in range(nmax + 1):
@@ -141,6 +155,8 @@ class TheCheck(SeqCheck):
                     op = "clear"
                 elif r < 0.91:
                     op = "addnull %d" % idx
+                elif r < 0.92:
+                    op = "lockprobe"
                 elif r < 0.93:
                     op = "inv"
                 elif r < 0.95:
@@ -209,6 +225,49 @@ class TheCheck(SeqCheck):
                                "reverse", "toarray", "resize 0", "toarray", "reverse", "walk 0", "end"])
         return hs
 
+    BIG_SIZES = [255, 256, 257, 300, 511, 512, 513, 1000, 4097]
+
+    def gen_big_elements(self):
+        """every operation that moves element bytes, on elements of 255 ... 4097 bytes (around the
+        multiples of 256 / 512 / 4096) and one random size per run, with aperiodic contents; the whole
+        of every element is compared after every operation (obs = getat copies, private dump = buffer)"""
+        hs = []
+        sizes = self.BIG_SIZES + [self.rng.randrange(258, 6000)]
+        for i, os_ in enumerate(sizes):
+            opt = (EXACT, LINEAR, DOUBLE)[i % 3] | (i & 1)
+            cap = i % 3
+            e = lambda k: hexs(bigelem(os_, k))
+            h = ["new %d %d %d" % (cap, os_, opt), "addlast " + e(1), "addlast " + e(2), "reverse", "addlast " + e(3), "reverse",
+                 "addfirst " + e(4), "addat 1 " + e(5), "addat -1 " + e(6), "setat -2 " + e(7), "setfirst " + e(8), "reverse",
+                 "getat 0 1", "getat -1 0", "popat 1", "removefirst", "removeat -2", "toarray", "walk 1", "reset", "next 1", "next 0",
+                 "resize 2", "reverse", "resize 5", "addlast " + e(9), "addfirst " + e(10), "reverse", "popfirst", "poplast",
+                 "fault 1", "next 1", "next 1", "resize 1", "addlast " + e(11), "reverse", "toarray", "resize 0", "addlast " + e(12), "inv", "end"]
+            hs.append(h)
+        return hs
+
+    def gen_resize_faults(self):
+        """public resize to EVERY capacity in [0, n+2] with the realloc failing (and not failing):
+        a reported failure leaves size, contents and capacity as they were - growing, same size and
+        shrinking alike; also on THREADSAFE vectors"""
+        hs = []
+        for os_, opt, cap in [(1, EXACT, 0), (3, LINEAR | 1, 2), (8, DOUBLE, 1), (2, DOUBLE | LINEAR | 1, 0)]:
+            for n in range(6):
+                for m in range(n + 3):
+                    for arm in ("fault 1", "faultfrom 1", "fault 2"):
+                        hs.append(["new %d %d %d" % (cap, os_, opt)] + build(os_, n) +
+                                  [arm, "resize %d" % m, "toarray", "resize %d" % m, "addlast " + hexs(elem(os_, 99)), "getat -1 1", "end"])
+        return hs
+
+    def gen_lockprobe(self):
+        """`lockprobe` (harness/vector.c): inside lock() ... unlock() a nested addlast (addlast -> addat ->
+        resize: three levels); a second thread must find the mutex busy until the outer unlock()"""
+        hs = []
+        for os_, opt, cap in [(1, EXACT | 1, 0), (3, LINEAR | 1, 1), (8, DOUBLE | 1, 2), (2, 1, 0), (2, EXACT, 0), (5, 15, 1)]:
+            x = hexs(elem(os_, 9))
+            hs.append(["new %d %d %d" % (cap, os_, opt), "lockprobe", "lockprobe", "addfirst " + x, "lockprobe", "reset", "next 1", "lockprobe",
+                       "next 0", "resize 0", "lockprobe", "popfirst", "lockprobe", "walk 1", "inv", "end"])
+        return hs
+
     def streams(self):
         quick = self.tier == "quick"
         sts = self.corpus_streams()
@@ -219,6 +278,18 @@ class TheCheck(SeqCheck):
         sts.append(Stream("sequences", pack(self.gen_sequences(3 if quick else 4)), history=True,
                           note="all op sequences up to the length bound over 13 ops x 3 policies x capacity 0..2"))
         sts.append(Stream("random", pack(self.gen_random(100 if quick else 1500, 120)), history=True))
+        sts.append(Stream("big-elements", pack(self.gen_big_elements()), history=True,
+                          note="element sizes 255,256,257,300,511,512,513,1000,4097 + one random size: reverse, shifting add, remove, set, "
+                               "toarray, resize, getnext copies; aperiodic contents, every byte of every element compared after every op"))
+        sts.append(Stream("resize-faults", pack(self.gen_resize_faults()), history=True,
+                          note="resize to every capacity in [0,n+2] x failing / not failing realloc, n<=5, plain and THREADSAFE"))
+        # the errno-reporting streams once more on THREADSAFE vectors (same ops, same expected lines)
+        sts.append(Stream("exhaustive-index-ts", pack(ts_variant(self.gen_index_exhaustive(4 if quick else 6, small=True))), history=True,
+                          note="exhaustive-index (objsize 1 and 3) on vectors created with QVECTOR_THREADSAFE"))
+        sts.append(Stream("sequences-ts", pack(ts_variant(self.gen_sequences(2 if quick else 3))), history=True))
+        sts.append(Stream("invalid-args-ts", pack(ts_variant(self.gen_invalid())), history=True))
+        sts.append(Stream("lockprobe", pack(self.gen_lockprobe()), history=True,
+                          note="nested public call inside lock()..unlock(): a second thread finds the mutex busy until the outer unlock"))
         sts.append(Stream("option-words", pack(self.gen_option_words()), history=True,
                           note="every combination of the 4 documented option bits (+2 words with an undefined bit) x capacity 0..2 x objsize {1,3,8}, "
                                "several forced growths, resize(0), refill"))
